@@ -120,7 +120,7 @@ Proof.
     2:{ exists e1, s1, k, None. intros b. rewrite H1. reflexivity. }
     destruct (run_acts_uniform c (filter unary_act pre) final s1 L) as (e2 & s2 & code & H2).
     specialize (OK eq_refl).
-    destruct md as [|k|k].
+    destruct md as [|k|k|m|m].
     + destruct (Nat.eqb code 0) eqn:EC.
       * destruct (do_send_uniform c reply s2 L) as (e3 & s3 & r3 & H3).
         exists (e1 ++ e2 ++ e3), s3, (code_of r3), (Some code). intros b.
@@ -133,12 +133,23 @@ Proof.
     + destruct k as [|k]; [congruence|].
       exists (e1 ++ e2), s2, (S k), (Some (S k)). intros b. rewrite H1, H2. cbn iota beta.
       cbn [Nat.eqb]. rewrite sel_app. reflexivity.
+    + destruct (Nat.eqb code 0) eqn:EC.
+      * destruct (do_send_uniform c m s2 L) as (e3 & s3 & r3 & H3).
+        exists (e1 ++ e2 ++ e3), s3, (code_of r3), (Some code). intros b.
+        rewrite H1, H2. cbn iota beta. rewrite EC, H3, !sel_app. reflexivity.
+      * exists (e1 ++ e2), s2, code, (Some code). intros b.
+        rewrite H1, H2. cbn iota beta. rewrite EC, sel_app. reflexivity.
+    + destruct (do_send_uniform c m s1 L) as (e3 & s3 & r3 & H3).
+      exists (e1 ++ [] ++ e3), s3, (code_of r3), (Some 0). intros b.
+      rewrite H1. cbn iota beta. cbn [Nat.eqb]. rewrite H3. cbn [app]. rewrite sel_app. reflexivity.
   - unfold stream_handler.
     destruct (run_acts_uniform c acts final s L) as (e & s1 & code & H).
-    destruct md as [|k|k].
+    destruct md as [|k|k|m|m].
     + exists e, s1, code, (Some code). intros b. rewrite H. reflexivity.
     + exists [], s, k, (Some k). intros b. destruct b; reflexivity.
     + exists e, s1, k, (Some k). intros b. rewrite H. reflexivity.
+    + exists e, s1, code, (Some code). intros b. rewrite H. reflexivity.
+    + exists e, s1, code, (Some code). intros b. rewrite H. reflexivity.
 Qed.
 
 (* ---------- the events of the handler phase ---------- *)
@@ -268,7 +279,7 @@ Proof.
     destruct (lstep c ARecv s) as [[[e1 s1] r]| | |] eqn:H1; try discriminate.
     pose proof (lstep_good _ _ _ _ _ _ L H1) as G1.
     destruct r as [| |k]; try (intros E; inversion E; subst; exact G1).
-    destruct md as [|k|k]; cbn iota beta.
+    destruct md as [|k|k|m|m]; cbn iota beta.
     + destruct (run_acts c (filter unary_act pre) final s1) as [[[e2 s2] code2]| | |] eqn:H2; try discriminate.
       pose proof (run_acts_good _ _ _ L _ _ _ _ H2) as G2.
       destruct (Nat.eqb code2 0).
@@ -287,10 +298,24 @@ Proof.
         intros E; inversion E; subst.
         eapply good_trans; [exact G1|]. eapply good_trans; [exact G2|]. eapply do_send_nil_good; eauto.
       * intros E; inversion E; subst. eapply good_trans; eauto.
-  - unfold stream_handler. destruct md as [|k|k].
+    + destruct (run_acts c (filter unary_act pre) final s1) as [[[e2 s2] code2]| | |] eqn:H2; try discriminate.
+      pose proof (run_acts_good _ _ _ L _ _ _ _ H2) as G2.
+      destruct (Nat.eqb code2 0).
+      * destruct (do_send c m s2) as [[[e3 s3] r3]| | |] eqn:H3; try discriminate.
+        intros E; inversion E; subst.
+        eapply good_trans; [exact G1|]. eapply good_trans; [exact G2|]. exact (step_good c (ASend m) _ _ _ _ L H3).
+      * intros E; inversion E; subst. eapply good_trans; eauto.
+    + cbn [Nat.eqb]. destruct (do_send c m s1) as [[[e3 s3] r3]| | |] eqn:H3; try discriminate.
+      intros E; inversion E; subst. cbn [app].
+      eapply good_trans; [exact G1|]. exact (step_good c (ASend m) _ _ _ _ L H3).
+  - unfold stream_handler. destruct md as [|k|k|m|m].
     + destruct (run_acts c acts final s) as [[[e2 s2] code2]| | |] eqn:H2; try discriminate.
       intros E; inversion E; subst. eapply run_acts_good; eauto.
     + intros E; inversion E; subst. apply good_refl.
+    + destruct (run_acts c acts final s) as [[[e2 s2] code2]| | |] eqn:H2; try discriminate.
+      intros E; inversion E; subst. eapply run_acts_good; eauto.
+    + destruct (run_acts c acts final s) as [[[e2 s2] code2]| | |] eqn:H2; try discriminate.
+      intros E; inversion E; subst. eapply run_acts_good; eauto.
     + destruct (run_acts c acts final s) as [[[e2 s2] code2]| | |] eqn:H2; try discriminate.
       intros E; inversion E; subst. eapply run_acts_good; eauto.
 Qed.
@@ -408,9 +433,11 @@ Lemma stream_iret sc r :
 Proof.
   intros E R U. destruct (serve_routed _ _ _ E R) as (e & s & herr & ir & H & ->). cbn [r_iret r_herr].
   destruct (s_hs sc) as [pre reply final|acts final]; [discriminate|]. cbn [handler] in H. unfold stream_handler in H.
-  destruct (eff_mode sc) as [|k|k].
+  destruct (eff_mode sc) as [|k|k|m|m].
   - destruct (run_acts _ acts final (st0 sc)) as [[[e2 s2] c2]| | |]; try discriminate. now inversion H.
   - now inversion H.
+  - destruct (run_acts _ acts final (st0 sc)) as [[[e2 s2] c2]| | |]; try discriminate. now inversion H.
+  - destruct (run_acts _ acts final (st0 sc)) as [[[e2 s2] c2]| | |]; try discriminate. now inversion H.
   - destruct (run_acts _ acts final (st0 sc)) as [[[e2 s2] c2]| | |]; try discriminate. now inversion H.
 Qed.
 
@@ -448,12 +475,12 @@ Qed.
 
 Lemma send_ok c p s :
   c_http c = true \/ done s = false ->
-  exists e s', do_send c p s = Ok (e, s', ROk) /\ outm s' = outm s ++ [p].
+  exists e s', do_send c p s = Ok (e, s', ROk) /\ outm s' = outm s ++ [p] /\ hlog s' = hlog s /\ dlv s' = dlv s.
 Proof.
   intros H. unfold do_send. destruct (c_http c) eqn:HT.
-  - unfold http_send. eexists; eexists; split; [reflexivity|]. destruct (Nat.eqb (scount s) 0 && negb (hsent s)); reflexivity.
+  - unfold http_send. eexists; eexists; split; [reflexivity|]. destruct (Nat.eqb (scount s) 0 && negb (hsent s)); repeat split.
   - destruct H as [H|H]; [discriminate|]. unfold grpc_send. rewrite H, grpc_out_stats_ok.
-    eexists; eexists; split; reflexivity.
+    eexists; eexists; split; [reflexivity|]. repeat split.
 Qed.
 
 Lemma send_nil_ok c s e s' r :
@@ -463,9 +490,10 @@ Proof.
   destruct H as [H|H]; [discriminate|]. rewrite H. discriminate.
 Qed.
 
+(* the decode of a unary method / the first RecvMsg: one entry in the handler's log *)
 Lemma recv_first sc :
   exists e s1 x, lstep (cfg_of false sc) ARecv (st0 sc) = Ok (e, s1, x) /\
-    (x = ROk <-> first_ok sc = true) /\ outm s1 = [] /\ done s1 = false.
+    (x = ROk <-> first_ok sc = true) /\ outm s1 = [] /\ done s1 = false /\ hlog s1 = [x].
 Proof.
   destruct sc as [pr cs ss nm rt rb rq hs md ic stt].
   unfold lstep, first_ok, cfg_of, st0, req_has_body; cbn [step s_proto s_cs s_ss s_stats s_rule_body s_reqs is_http].
@@ -484,23 +512,29 @@ Proof.
       eexists; eexists; eexists; (split; [reflexivity|]); cbn; repeat split; auto; try discriminate; try congruence.
 Qed.
 
+(* A unary method: the interceptor is reached iff the request message could be decoded; a non-OK
+   code it returns is the client's status and nothing is sent; OK means the client gets exactly the
+   message the interceptor layer returned (reply_of: its own in the modes IReplace / IAnswer, the
+   handler's otherwise). On gRPC SendMsg fails once the call is cancelled, hence the side condition;
+   an interceptor that answers without calling the handler (IAnswer) cannot be cancelled by it. *)
 Theorem once_unary sc r pre reply final :
   serve false sc = Ok r -> s_routed sc = true -> s_hs sc = HUnary pre reply final ->
   (first_ok sc = false -> r_iret r = None /\ r_calls r = [] /\ r_replies r = []) /\
   (first_ok sc = true -> exists k, r_iret r = Some k /\
      (k <> 0 -> r_status r = Some k /\ r_replies r = []) /\
-     (k = 0 -> s_proto sc = PHttp \/ no_cancel pre = true -> r_status r = Some 0 /\ r_replies r = [reply])).
+     (k = 0 -> s_proto sc = PHttp \/ no_cancel pre = true \/ (exists m, eff_mode sc = IAnswer m) ->
+      r_status r = Some 0 /\ r_replies r = [reply_of (eff_mode sc) reply])).
 Proof.
   intros E R HS. destruct (serve_routed _ _ _ E R) as (e & s & herr & ir & H & ->).
   cbn [r_iret r_calls r_replies r_status].
   rewrite HS in H. cbn [handler] in H. unfold unary_handler in H.
-  destruct (recv_first sc) as (e1 & s1 & x & H1 & FX & O1 & D1). rewrite H1 in H.
+  destruct (recv_first sc) as (e1 & s1 & x & H1 & FX & O1 & D1 & _). rewrite H1 in H.
   assert (HT : s_proto sc = PHttp -> c_http (cfg_of false sc) = true) by (intros P; unfold cfg_of; cbn; now rewrite P).
   destruct x as [| |kx].
   2:{ inversion H; subst. split; [intros _; repeat split; auto|]. intros F. apply FX in F. discriminate. }
   2:{ inversion H; subst. split; [intros _; repeat split; auto|]. intros F. apply FX in F. discriminate. }
   split; [intros F; destruct FX as [FX _]; rewrite (FX eq_refl) in F; discriminate|]. intros _.
-  destruct (eff_mode sc) as [|k|k]; cbn iota beta in H.
+  destruct (eff_mode sc) as [|k|k|m|m]; cbn iota beta in H; cbn [reply_of].
   - destruct (run_acts _ (filter unary_act pre) final s1) as [[[e2 s2] code2]| | |] eqn:H2; try discriminate.
     destruct (meta_keeps _ _ _ _ _ _ _ H2) as [O2 D2]. rewrite O1 in O2. rewrite D1 in D2.
     destruct (Nat.eqb code2 0) eqn:EC.
@@ -508,8 +542,8 @@ Proof.
       exists 0. split.
       { destruct (do_send _ reply s2) as [[[e3 s3] r3]| | |]; try discriminate. now inversion H. }
       split; [congruence|]. intros _ HC.
-      destruct (send_ok (cfg_of false sc) reply s2) as (e3 & s3 & H3 & O3).
-      { destruct HC as [HC|HC]; [left; auto|right; auto]. }
+      destruct (send_ok (cfg_of false sc) reply s2) as (e3 & s3 & H3 & O3 & _).
+      { destruct HC as [HC|[HC|(m & HC)]]; [left; auto|right; auto|discriminate]. }
       rewrite H3 in H. inversion H; subst. rewrite O3, O2. split; reflexivity.
     + cbn iota in H. inversion H; subst. exists herr. split; [reflexivity|]. split.
       * intros _. split; auto.
@@ -527,10 +561,27 @@ Proof.
     + apply Nat.eqb_eq in EK; subst k. cbn iota in H.
       destruct (do_send_nil _ s2) as [[[e3 s3] r3]| | |] eqn:H3; try discriminate.
       split; [now inversion H|]. split; [congruence|]. intros _ HC. exfalso.
-      eapply send_nil_ok; [|exact H3]. destruct HC as [HC|HC]; [left; auto|right; auto].
+      eapply send_nil_ok; [|exact H3]. destruct HC as [HC|[HC|(m & HC)]]; [left; auto|right; auto|discriminate].
     + cbn iota in H. inversion H; subst. split; [reflexivity|]. split.
       * intros _. split; auto.
       * intros Z; subst. discriminate.
+  - destruct (run_acts _ (filter unary_act pre) final s1) as [[[e2 s2] code2]| | |] eqn:H2; try discriminate.
+    destruct (meta_keeps _ _ _ _ _ _ _ H2) as [O2 D2]. rewrite O1 in O2. rewrite D1 in D2.
+    destruct (Nat.eqb code2 0) eqn:EC.
+    + apply Nat.eqb_eq in EC; subst code2. cbn iota in H.
+      exists 0. split.
+      { destruct (do_send _ m s2) as [[[e3 s3] r3]| | |]; try discriminate. now inversion H. }
+      split; [congruence|]. intros _ HC.
+      destruct (send_ok (cfg_of false sc) m s2) as (e3 & s3 & H3 & O3 & _).
+      { destruct HC as [HC|[HC|(m' & HC)]]; [left; auto|right; auto|discriminate]. }
+      rewrite H3 in H. inversion H; subst. rewrite O3, O2. split; reflexivity.
+    + cbn iota in H. inversion H; subst. exists herr. split; [reflexivity|]. split.
+      * intros _. split; auto.
+      * intros Z; subst. discriminate.
+  - cbn [Nat.eqb] in H. exists 0.
+    destruct (send_ok (cfg_of false sc) m s1) as (e3 & s3 & H3 & O3 & _); [right; exact D1|].
+    rewrite H3 in H. inversion H; subst. split; [reflexivity|]. split; [congruence|].
+    intros _ _. rewrite O3, O1. split; reflexivity.
 Qed.
 
 Lemma no_icpt_no_calls sc r : serve false sc = Ok r -> s_icpt sc = false -> r_calls r = [].
@@ -548,14 +599,16 @@ Theorem once sc r :
      (first_ok sc = false -> r_iret r = None /\ r_replies r = []) /\
      (first_ok sc = true -> exists k, r_iret r = Some k /\
         (k <> 0 -> r_status r = Some k /\ r_replies r = []) /\
-        (k = 0 -> s_proto sc = PHttp \/ no_cancel pre = true -> r_status r = Some 0 /\ r_replies r = [reply]))).
+        (k = 0 -> s_proto sc = PHttp \/ no_cancel pre = true \/ (exists m, s_imode sc = IAnswer m) ->
+         r_status r = Some 0 /\ r_replies r = [reply_of (s_imode sc) reply]))).
 Proof.
-  intros E R IC. destruct (calls_shape _ _ E R) as [CS ST]. split; [|split; [|split; [|intros pre reply final H; split]]].
+  intros E R IC. assert (EM : eff_mode sc = s_imode sc) by (unfold eff_mode; now rewrite IC).
+  destruct (calls_shape _ _ E R) as [CS ST]. split; [|split; [|split; [|intros pre reply final H; split]]].
   - intros NN. rewrite CS. destruct (r_iret r); [|congruence]. rewrite IC. apply calls_ok_the_call.
   - intros N. rewrite CS, N. reflexivity.
   - intros U. exists (r_herr r). split; [eapply stream_iret; eauto|exact ST].
   - intros F. destruct (once_unary _ _ _ _ _ E R H) as [A _]. destruct (A F) as (X & _ & Y). split; assumption.
-  - intros F. destruct (once_unary _ _ _ _ _ E R H) as [_ B]. exact (B F).
+  - intros F. destruct (once_unary _ _ _ _ _ E R H) as [_ B]. rewrite EM in B. exact (B F).
 Qed.
 
 Theorem silent sc r :
